@@ -274,11 +274,13 @@ def plant_cache_siblings(case, rng):
 
 
 def run_hist_prop(prop, tier, salt, n_quick, n_thorough, families=gen.SCENARIOS, per_family=(25, 600),
-                  prof=gen.DEFAULT_PROFILE, extra_cases=None, unit_tie=None, **kw):
+                  prof=gen.DEFAULT_PROFILE, extra_cases=None, unit_tie=None, faults=None, **kw):
     rep = core.Report(prop, tier)
     gate = core.proof_gate(THEOREMS[prop], tier)
     ds = measure()
     unit_problems = unit_tie[1](tier, rep) if unit_tie else []
+    if faults:
+        fault_batch(prop, tier, rep, ds, *faults)
     cases = corpus_cases(ds)
     cases += gen.gen_scenario_cases(core.seed() * 31 + salt, budget(tier, *per_family), ds, families)
     if extra_cases:
@@ -329,6 +331,8 @@ def check_C04(tier):
     from . import bdcheck
     probs = bdcheck.run(tier, rep)
     rep.count('correspondence_disagreements_builddirs', len(probs))
+    # a call that fails in its set-up must not stay "being built" (hidden) for the rest of the build
+    fault_batch('C04', tier, rep, ds, (4, 100), (40, 2000), 104)
     cases = corpus_cases(ds)
     cases += gen.gen_scenario_cases(core.seed() * 31 + 4, budget(tier, 25, 600), ds, gen.SCENARIOS)
     cases += random_cases(tier, 400, 15000, 104, dirsize=ds)
@@ -402,8 +406,9 @@ def check_C08(tier):
 
 
 def check_C10(tier):
+    # "... also when creating those directories, or moving the old file aside, itself fails": a batch of injected faults
     return run_hist_prop('C10', tier, 10, 500, 30000, families=[gen.scen_nested_failure, gen.scen_swap, gen.scen_stale_dir, gen.scen_longname],
-                         per_family=(80, 2000), p_fail=0.1)
+                         per_family=(80, 2000), p_fail=0.1, faults=((4, 100), (40, 2000), 110))
 
 
 def check_C12(tier):
@@ -781,10 +786,10 @@ def fault_plan(fired):
     return {'abort': 'end' if fired.get('root_returned') else 'start'}
 
 
-def c14_jobs(tier, ds):
+def c14_jobs(tier, ds, per_family=(12, 300), n_random=(150, 6000), salt=14):
     """cases with one injected OSError at the k-th mutating library call of one committed build"""
-    base = gen.gen_scenario_cases(core.seed() * 31 + 14, budget(tier, 12, 300), ds, gen.SCENARIOS + [gen.scen_longname])
-    base += random_cases(tier, 150, 6000, 14, dirsize=ds, p_fail=0.0, p_clean=0.0, min_builds=2, max_builds=4)
+    base = gen.gen_scenario_cases(core.seed() * 31 + salt, budget(tier, *per_family), ds, gen.SCENARIOS + [gen.scen_longname])
+    base += random_cases(tier, n_random[0], n_random[1], salt, dirsize=ds, p_fail=0.0, p_clean=0.0, min_builds=2, max_builds=4)
     probe = []
     for c in base:
         c = json.loads(json.dumps(c))
@@ -813,6 +818,23 @@ def c14_jobs(tier, ds):
                 j['fault_step'] = b
                 jobs.append(j)
     return jobs
+
+
+def fault_batch(prop, tier, rep, ds, per_family, n_random, salt):
+    """the fault-injection flow of C14 inside another property's check: the same faults, judged by that
+    property's oracle"""
+    jobs = c14_jobs(tier, ds, per_family, n_random, salt)
+    reals = core.pmap(hist.real_worker, jobs)
+    for j, r in zip(jobs, reals):
+        if 'harness_error' in r:
+            raise core.HarnessError(r['harness_error'])
+        f = r['steps'][j['fault_step']].get('fault', {}).get('fired')
+        if f is None:
+            raise core.HarnessError('injected fault did not fire: %s' % j['seed'])
+        rep.count('faults_injected')
+        j['steps'][j['fault_step']][5].update(fault_plan(f))
+    specs = model.run_cases(jobs)
+    explore(prop, tier, rep, jobs, precomputed=list(zip(jobs, reals, specs)))
 
 
 def check_C14(tier):
